@@ -329,13 +329,24 @@ func (rr *renderer) renderList(f *fileBuf, dirs []*Dir, depth int) {
 				}
 				bb := -1
 				be := -1
-				for _, bl := range d.Body {
+				for bi, bl := range d.Body {
 					f.sb.WriteString(bind)
 					if bb < 0 {
 						bb = f.off()
 					}
 					f.sb.WriteString(bl)
 					be = f.off() - 1
+					if bi == len(d.Body)-1 && !l.Plain && code != 'T' {
+						// blanks and a comment after the last line of a schema / enum body (a blank before '#' is required)
+						lr := &lrnd{l: l, id: d.ID, what: "bodytail"}
+						if l.ch(d.ID, "bodycomment", l.PEolComment) {
+							f.sb.WriteString(pick(lr, []string{" ", "  ", "\t"}) + "# " + genWords(lr, 2))
+							rr.out.Features["comment-after-body"]++
+						} else if l.ch(d.ID, "bodytrail", l.PTrail) {
+							f.sb.WriteString(pick(lr, []string{" ", "  ", "\t"}))
+							rr.out.Features["blank-after-body"]++
+						}
+					}
 					rr.eol(f)
 				}
 				f.spans = append(f.spans, Span{code, bb, be})
